@@ -359,6 +359,7 @@ class DesignSpace:
             lower_bound=variable.lower_bound[dimensions],
             upper_bound=variable.upper_bound[dimensions],
         )
+        self.normalize[name] = self.normalize[name][dimensions]
         if name in self.__current_value:
             self.set_current_variable(
                 name, self.get_current_value([name])[dimensions]
